@@ -196,7 +196,7 @@ def case_strategy(draw, driver=None):
         if kind in ("seq", "txn"):
             for _ in range(draw(st.integers(0 if cmds else 1, 2))):
                 item = draw(st.sampled_from([{"k": "sleep", "d": 0.001}, {"k": "sleep", "d": 0.03}, {"k": "sleep", "d": 0.25},
-                                             {"k": "progress"}]))
+                                             {"k": "sleep", "d": 1.0}, {"k": "sleep", "d": 2.5}, {"k": "progress"}]))
                 cmds.insert(draw(st.integers(0, len(cmds))), dict(item))
         if kind == "txn" and drv == "tridonic" and draw(st.integers(0, 2)) == 0:
             cmds.insert(draw(st.integers(0, len(cmds))), {"k": "power", "on": draw(st.booleans())})
